@@ -612,6 +612,11 @@ func rulePanicSites(c *Ctx, rule string, fns []*ssa.Function) {
 			n++
 			switch x := in.(type) {
 			case *ssa.Panic:
+				// the misuse checks the compiler adds around a range-over-func loop (an iterator
+				// that calls yield after the loop has ended) are not reachable by input
+				if cm := in.Block().Comment; cm == "yield-invalid" || strings.HasPrefix(cm, "rangefunc.resume") {
+					return
+				}
 				bad = append(bad, "panic at "+w.instrPos(in)+" in "+fname(fn))
 			case *ssa.TypeAssert:
 				if !x.CommaOk {
